@@ -4,6 +4,7 @@ import XV.Spec.Magic
 import XV.Spec.OpTables
 import XV.Driver.LinesOps
 import XV.Driver.DecodeOps
+import XV.Driver.MarshalOps
 namespace XV.Driver
 open XV XV.Model
 
@@ -36,6 +37,8 @@ def dispatch (op : String) (args : List String) : String :=
       | some r => r
       | none => match operandDispatch op args with
         | some r => r
-        | none => "(err bad-op)"
+        | none => match marshalDispatch op args with
+          | some r => r
+          | none => "(err bad-op)"
 
 end XV.Driver
